@@ -55,3 +55,7 @@ Proof.
   replace (has_col (nth 1 k_egmap_file_optional ""%string) _) with false by (vm_compute; reflexivity).
   reflexivity.
 Qed.
+
+(** ** column selection (finite table regenerated from the source) *)
+Lemma col_select_ok : forallb col_row_ok k_col_select = true /\ (16 <= length k_col_select)%nat.
+Proof. split; [vm_compute; reflexivity | vm_compute; lia]. Qed.
